@@ -1,10 +1,11 @@
 import SamlVerif.Driver.Proto
 import SamlVerif.Driver.SPStruct
+import SamlVerif.Driver.Codec
 
 open SamlVerif
 
 def allHandlers : List (String × Proto.P String) :=
-  Driver.SPStruct.handlers
+  Driver.SPStruct.handlers ++ Driver.Codec.handlers
 
 def answer (line : String) : String :=
   match (line.splitOn " ").filter (· ≠ "") with
